@@ -132,7 +132,7 @@ fn main() {
     let mut timeout = args.get(2).and_then(|s| s.parse::<u64>().ok()).unwrap_or(10);
     // a search runs many histories: its own budget bounds it, the watchdog only guards a single spinning call
     if v.get("kind").and_then(|k| k.as_str()) == Some("search") {
-        timeout = timeout.max(v.get("budget_ms").and_then(|x| x.as_u64()).unwrap_or(20000) / 1000 + 15);
+        timeout = timeout.max((v.get("budget_ms").and_then(|x| x.as_u64()).unwrap_or(20000) + v.get("sample_ms").and_then(|x| x.as_u64()).unwrap_or(0)) / 1000 + 15);
     }
     let (tx, rx) = mpsc::channel();
     std::thread::spawn(move || { let _ = tx.send(run(v)); });
